@@ -426,7 +426,7 @@ Definition structure_ok : bool :=
                       String.eqb c "r.sortPlugins()" && String.eqb d "r.Unlock()"
     | _ => false
     end) &&
-   configure_zero_is_all && configure_refuses_extra && stub_update_guard &&
+   configure_zero_is_all && configure_refuses_extra && stub_update_guard && stub_update_relays &&
    (* plugin.UpdateContainers hands exactly the request's list to updateContainers and returns its
       failed list and error; Stub.UpdateContainers tests for a missing runtime first *)
    (* … and does nothing else (in particular takes no lock before the adaptation's): a log line, the
